@@ -557,8 +557,13 @@ def run(prog, rep, tier):
         if r_["back_edges_that_can_skip_the_increment"]:
             rep.violation(R716, "%s|%s|skipped-increment" % (r_["fn"], r_["counter"]), "%s: the loop at line %s is bounded only by `%s %s %s`, but a path back to its head (from line %s) does not increment the counter; "
                           "when libsystemd answers every enumeration call for an entry with an error the reader spins forever and the run never ends" % (r_["fn"], r_["line"], r_["counter"], r_["cmp"], r_["bound"], r_["back_edges_that_can_skip_the_increment"][0]))
-    if n716 < 2:
-        raise CheckerError("R7.16: only %d counter-bounded enumeration loops found in the journal reader" % n716)
+    # floor on the enumeration loops themselves; a reader that drops the emergency counter altogether (and
+    # relies on the enumeration's own end) has nothing for this rule to judge
+    nenum716 = sum(1 for jb_ in prog.bodies() if jb_.path.startswith("s4lib::readers::journalreader::") and "_tests" not in jb_.path and "{closure" not in jb_.path
+                   and any(c.d.endswith("call_sd_journal_enumerate_available_data") and c.d != jb_.path and any(c.bb in jb_.loop_blocks(h_) or c.bb == h_ for (_s, h_) in jb_.back_edges()) for c in jb_.live_calls()))
+    rep.examined(R716, "journalreader|enumeration-loops", sample={"functions_with_a_field_enumeration_loop": nenum716, "of_which_counter_bounded": n716})
+    if nenum716 < 2:
+        raise CheckerError("R7.16: only %d field enumeration loops found in the journal reader" % nenum716)
 
     return rep.finish(
         "Static necessary-condition check against crashes/hangs from file content: (R7.1) for all strings of all 173 date regexes the converter's "
